@@ -116,6 +116,7 @@ def _case(draw):
         head = [draw(extra)] if draw(st.booleans()) else []
         ops = head + [warm] + ops
     case["ops"] = ops
+    case["arg_style"] = draw(st.sampled_from(R.ARG_STYLES))
     return case
 
 
@@ -218,6 +219,16 @@ def _normalise_ops(case):
 
 # ---------------------------------------------------------------- oracle ----
 def run_case(case):
+    R.set_arg_style(case.get("arg_style"))
+    try:
+        out = _run_case(case)
+    finally:
+        R.set_arg_style(None)
+    out.labels.append(f"arg_style={case.get('arg_style') or 'ndarray'}")
+    return out
+
+
+def _run_case(case):
     kind, name, cfg = case["kind"], case["name"], case["config"]
     comp = R.component_label(kind, name, cfg)
     spec = R.spec_of(kind, name)
